@@ -100,6 +100,7 @@ class StreamCmp:
         self.updates = 0
         self.eigen = False
         self.drifted = False
+        self.illcond = False
         self.scale = {}
         self.cur = 0.0
         self.exact_values = 0
@@ -111,6 +112,7 @@ class StreamCmp:
         self.updates = 0
         self.eigen = False
         self.drifted = False
+        self.illcond = False
         self.scale = {}
         self.cur = 0.0
 
@@ -126,6 +128,11 @@ class StreamCmp:
                     v = _mag(t)
                     if v > m:
                         m = v
+                    # a gradient element that has almost cancelled (non-zero, below 2^-12 of what gradients have been in
+                    # this history): the adaptive rules divide by sqrt(statistic) ~ |g| next, which amplifies a last-bit
+                    # difference of g without bound — from here on the history is compared loosely (see growth())
+                    if k == "g" and 0.0 < v < m * 2.0 ** -12:
+                        self.illcond = True
                 sc[k] = m
 
     def growth(self):
@@ -140,6 +147,15 @@ class StreamCmp:
         # amplifies such a difference without bound.  The sharp 2^-18 therefore applies to the first
         # divergence from a bit-identical history.
         loose = (self.eigen or self.drifted) and self.tol.rel < 2.0 ** -12
+        # The comparison with the SPECIFICATION (textbook equations, tolerance 2^-11) is loosened 2^5 times on Eigen
+        # histories for the same reason: found by a thorough run (seed 5) on the unchanged tree — RMSProp with alpha = 0,
+        # a gradient of 4e-7 left by weight decay after the real gradient became 0, eps = 1e-6: the step
+        # lr * g / (|g| + eps) turns a last-bit difference of g into 0.2 % of the value.  Naive histories (the
+        # implementation is bit-identical to the float32 emulation there) keep the sharp bound.
+        if self.illcond and (self.eigen or self.drifted):
+            return (1.0 + self.updates / 32.0) * 2.0 ** 16
+        if self.eigen and self.tol.rel >= 2.0 ** -12:
+            return (1.0 + self.updates / 32.0) * 32.0
         return (1.0 + self.updates / 32.0) * (128.0 if loose else 1.0)
 
     def note(self, line):
